@@ -663,7 +663,7 @@ func (ex *Exec) runDefers(st *State, at ssa.Instruction) {
 			ex.havocAll(st)
 			continue
 		}
-		ex.p.usedDeps[name] = true
+		ex.noteDep(name)
 		_ = h.fn(ex, st, nil, d.args)
 	}
 	st.defers = nil
